@@ -565,15 +565,42 @@ theorem applied_chunk_is_next (env : Env) {sy : Sy} (sc : Script) (hc : Clean sy
 theorem reErr_ne_ok {α β : Type} (e : ProvRes α) (x : β) : (reErr e : ProvRes β) ≠ .ok x := by
   cases e <;> simp [reErr]
 
-/-- **app hash from the light client at snapshot height + 1** (and the block at height + 2 must
-verify as well); the commit is the verified block's at the snapshot height; every field of the
-assembled state is a field of a verified light block at height, height+1, height+2. -/
-theorem provider_answers_from_verified_blocks (lc : Nat → ProvRes LightBlock) (h : Nat) :
+/-- what the verifying RPC client lets through: valid parameters, for the requested height, whose
+HASHED part (`Block.MaxBytes`, `Block.MaxGas`) is what the verified header commits to -/
+theorem checkParams_ok {maxBlock : Int} {want : Nat} {trusted : Int × Int} {r : ProvRes ParamsResp} {p : Params}
+    (h : checkParams maxBlock want trusted r = .ok p) :
+    ∃ resp, r = .ok resp ∧ resp.params = p ∧ resp.height = (want : Int) ∧ p.hashed = trusted ∧
+      p.valid maxBlock = true := by
+  unfold checkParams at h
+  split at h
+  · rename_i resp
+    split at h; · cases h
+    split at h; · cases h
+    split at h; · cases h
+    split at h; · cases h
+    rename_i h1 _ h3 h4
+    injection h with h
+    subst h
+    exact ⟨resp, rfl, rfl, by simpa using h3, by simpa using h4, by simpa using h1⟩
+  · exact absurd h (reErr_ne_ok _ _)
+
+/-- **the returned state is assembled from light-verified blocks**: the app hash is the one in
+the verified header at snapshot height + 1 (and height + 2 must verify); the commit is the one of
+the verified block at the snapshot height; `LastValidators / Validators / NextValidators` are the
+validator sets of the verified blocks at h, h+1, h+2; `LastBlockID`, app version, results hash
+come from those blocks; of the consensus parameters exactly the hashed part is bound. -/
+theorem provider_answers_from_verified_blocks (lc : Nat → ProvRes LightBlock) (maxBlock : Int)
+    (rpc : Nat → ProvRes ParamsResp) (ih h : Nat) :
     (∀ x, lcAppHash lc h = .ok x → ∃ b b2, lc (h + 1) = .ok b ∧ lc (h + 2) = .ok b2 ∧ x = b.appHash) ∧
-    (∀ c, lcCommit lc h = .ok c → ∃ b, lc h = .ok b ∧ c = b.commit) ∧
-    (∀ st, lcState lc h = .ok st → ∃ b0 b1 b2, lc h = .ok b0 ∧ lc (h + 1) = .ok b1 ∧ lc (h + 2) = .ok b2 ∧
-      st.lastBlockHeight = b0.height ∧ st.appHash = b1.appHash ∧ st.appVersion = b1.appVersion ∧
-      st.lastValidators = b0.vals ∧ st.validators = b1.vals ∧ st.nextValidators = b2.vals) := by
+    (∀ c, lcCommit lc h = .ok c → ∃ b, lc h = .ok b ∧ c = ⟨b.height, b.hash⟩) ∧
+    (∀ st, lcState lc maxBlock rpc ih h = .ok st → ∃ b0 b1 b2, lc h = .ok b0 ∧ lc (h + 1) = .ok b1 ∧
+      lc (h + 2) = .ok b2 ∧
+      st.lastBlockHeight = b0.height ∧ st.lastBlockID = b0.hash ∧ st.lastValidators = b0.vals ∧
+      st.appHash = b1.appHash ∧ st.appVersion = b1.appVersion ∧ st.validators = b1.vals ∧
+      st.lastResults = b1.lastResults ∧ st.nextValidators = b2.vals ∧
+      st.lastHeightValidatorsChanged = b2.height ∧ st.lastHeightParamsChanged = b1.height ∧
+      st.params.hashed = b1.consHashed ∧ st.params.valid maxBlock = true ∧
+      ∃ resp, rpc b1.height = .ok resp ∧ resp.params = st.params) := by
   refine ⟨?_, ?_, ?_⟩
   · intro x hx
     unfold lcAppHash at hx
@@ -583,13 +610,13 @@ theorem provider_answers_from_verified_blocks (lc : Nat → ProvRes LightBlock) 
       · rename_i b2 hb2
         injection hx with hx
         exact ⟨b, b2, hb, hb2, hx.symm⟩
-      · exact absurd ‹_› (reErr_ne_ok _ _)
-    · exact absurd ‹_› (reErr_ne_ok _ _)
+      · exact absurd hx (reErr_ne_ok _ _)
+    · exact absurd hx (reErr_ne_ok _ _)
   · intro c hc
     unfold lcCommit at hc
     split at hc
     · rename_i b hb; injection hc with hc; exact ⟨b, hb, hc.symm⟩
-    · exact absurd ‹_› (reErr_ne_ok _ _)
+    · exact absurd hc (reErr_ne_ok _ _)
   · intro st hst
     unfold lcState at hst
     split at hst
@@ -598,12 +625,106 @@ theorem provider_answers_from_verified_blocks (lc : Nat → ProvRes LightBlock) 
       · rename_i b1 h1
         split at hst
         · rename_i b2 h2
-          injection hst with hst
-          subst hst
-          exact ⟨b0, b1, b2, h0, h1, h2, rfl, rfl, rfl, rfl, rfl, rfl⟩
-        · exact absurd ‹_› (reErr_ne_ok _ _)
-      · exact absurd ‹_› (reErr_ne_ok _ _)
-    · exact absurd ‹_› (reErr_ne_ok _ _)
+          split at hst
+          · rename_i p hp
+            obtain ⟨resp, hr, hrp, _, hh, hv⟩ := checkParams_ok hp
+            injection hst with hst
+            subst hst
+            exact ⟨b0, b1, b2, h0, h1, h2, rfl, rfl, rfl, rfl, rfl, rfl, rfl, rfl, rfl, rfl, hh, hv, resp, hr, hrp⟩
+          · exact absurd hst (reErr_ne_ok _ _)
+        · exact absurd hst (reErr_ne_ok _ _)
+      · exact absurd hst (reErr_ne_ok _ _)
+    · exact absurd hst (reErr_ne_ok _ _)
+
+/-- KNOWN FINDING (`stateprovider.State.consensus-params-unhashed-fields-not-verified`): the header's
+`ConsensusHash` covers only `Block.MaxBytes/MaxGas`, so the rest of the consensus parameters of
+the returned state (evidence age and size, `TimeIotaMs`, pubkey types, app version) is whatever
+the primary RPC server says: two answers that differ in an unhashed field are both accepted
+against the same verified header. The full-strength claim "the state's consensus parameters are
+the chain's" is therefore false of the code; `provider_answers_from_verified_blocks` proves the
+partial one (hashed part bound, parameters valid). -/
+theorem consensus_params_determined_by_header_fails :
+    ¬ (∀ (maxBlock : Int) (want : Nat) (trusted : Int × Int) (r r' : ParamsResp) (p p' : Params),
+        checkParams maxBlock want trusted (.ok r) = .ok p →
+        checkParams maxBlock want trusted (.ok r') = .ok p' → p = p') := by
+  intro hall
+  let p : Params := { maxBytes := 100, maxGas := -1, timeIota := 1000, evAgeBlocks := 100000, evAgeDur := 1
+                      evMaxBytes := 10, pubKeyTypes := ["ed25519"], appVersion := 0 }
+  let p' : Params := { p with evAgeBlocks := 1, appVersion := 7 }
+  have h := hall 104857600 5 (100, -1) ⟨5, p⟩ ⟨5, p'⟩ p p' rfl rfl
+  exact absurd h (by decide)
+
+/-! ## what the node does with the answers (`startStateSync`: `SaveSeenCommit`, `Bootstrap`) -/
+
+/-- the answers of one provider for one height, given that the light client returns the block
+of the height it was asked for -/
+structure Restored (lc : Nat → ProvRes LightBlock) (maxBlock : Int) (rpc : Nat → ProvRes ParamsResp)
+    (ih h : Nat) (st : LcState) (c : LcCommit) : Prop where
+  atHeight : ∀ k b, lc k = .ok b → b.height = k
+  state : lcState lc maxBlock rpc ih h = .ok st
+  commit : lcCommit lc h = .ok c
+
+theorem restored_facts {lc : Nat → ProvRes LightBlock} {maxBlock : Int} {rpc : Nat → ProvRes ParamsResp}
+    {ih h : Nat} {st : LcState} {c : LcCommit} (r : Restored lc maxBlock rpc ih h st c) :
+    st.lastBlockHeight = h ∧ c.height = h ∧ c.blockHash = st.lastBlockID ∧ st.lastHeightParamsChanged = h + 1 := by
+  obtain ⟨_, hc, hs⟩ := provider_answers_from_verified_blocks lc maxBlock rpc ih h
+  obtain ⟨b0, b1, b2, h0, h1, _, e1, e2, _, _, _, _, _, _, _, e3, _⟩ := hs st r.state
+  obtain ⟨b, hb, rfl⟩ := hc c r.commit
+  rw [h0] at hb
+  injection hb with hb
+  subst hb
+  have := r.atHeight h b0 h0
+  have := r.atHeight (h + 1) b1 h1
+  exact ⟨by omega, by simpa using r.atHeight h b0 h0, e2.symm, by omega⟩
+
+/-- **the bootstrapped node can start**: after both writes (in either order) the state store
+holds exactly the restored state, `LoadValidators` at h, h+1, h+2 returns the light-verified
+sets, `LoadConsensusParams(h+1)` the restored parameters, the seen commit is the verified
+block's, and consensus reconstructs its `LastCommit` (`startNode = ok`). -/
+theorem bootstrapped_node_starts {lc : Nat → ProvRes LightBlock} {maxBlock : Int}
+    {rpc : Nat → ProvRes ParamsResp} {ih h : Nat} {st : LcState} {c : LcCommit}
+    (r : Restored lc maxBlock rpc ih h st c) (hpos : 0 < h) (hv : st.lastValidators ≠ []) (commitFirst : Bool) :
+    let s := startWrites commitFirst .none st c
+    startNode s = .ok ∧ s.state = some st ∧ s.vals h = some st.lastValidators ∧
+    s.vals (h + 1) = some st.validators ∧ s.vals (h + 2) = some st.nextValidators ∧
+    loadParams s (h + 1) = some st.params ∧ s.seen h = some c := by
+  obtain ⟨e1, e2, e3, e4⟩ := restored_facts r
+  have hz : ¬ h = 0 := by omega
+  have a1 : ¬ h = h + 1 + 1 := by omega
+  have a2 : ¬ h = h + 1 := by omega
+  have a3 : h + 1 - 1 = h := by omega
+  have a4 : ¬ h + 1 = h + 1 + 1 := by omega
+  have a5 : ¬ h + 2 = h + 1 := by omega
+  have a6 : 1 < h + 1 := by omega
+  cases commitFirst <;>
+    simp [startWrites, startNode, bootstrap, saveSeenCommit, loadParams, Stores.empty, upd, e1, e2, e3, e4, hz, hv,
+      a1, a2, a3, a4, a5, a6]
+
+/-- **no crash leaves a node that can neither start nor state-sync again** (order of /repo after
+the fix: synced seen commit first, then the state): whatever the crash point, a restarting node
+either finds an empty state (and runs state sync again) or starts consensus. -/
+theorem crash_safe_commit_first {lc : Nat → ProvRes LightBlock} {maxBlock : Int}
+    {rpc : Nat → ProvRes ParamsResp} {ih h : Nat} {st : LcState} {c : LcCommit}
+    (r : Restored lc maxBlock rpc ih h st c) (crash : Crash) :
+    startNode (startWrites true crash st c) = .ok ∨ startNode (startWrites true crash st c) = .stateSyncAgain := by
+  obtain ⟨e1, e2, e3, e4⟩ := restored_facts r
+  cases crash
+  · left
+    simp [startWrites, startNode, bootstrap, saveSeenCommit, Stores.empty, upd, e1, e2, e3]
+  · right; simp [startWrites, startNode, saveSeenCommit, Stores.empty]
+  · right; simp [startWrites, startNode, Stores.empty]
+
+/-- the order before the fix (state first, unsynced seen commit second): a crash between the
+two writes leaves the restored state without its seen commit — consensus panics in
+`reconstructLastCommit`, and the node does not state-sync again (replayed on the real
+`consensus.NewState`: replays/C14-witness-crash-between-bootstrap-and-seen-commit-before-fix.json) -/
+theorem crash_between_state_first_unstartable {lc : Nat → ProvRes LightBlock} {maxBlock : Int}
+    {rpc : Nat → ProvRes ParamsResp} {ih h : Nat} {st : LcState} {c : LcCommit}
+    (r : Restored lc maxBlock rpc ih h st c) (hpos : 0 < h) :
+    startNode (startWrites false .between st c) = .panicNoSeenCommit := by
+  obtain ⟨e1, _, _, _⟩ := restored_facts r
+  have : ¬ h = 0 := by omega
+  simp [startWrites, startNode, bootstrap, Stores.empty, e1, this]
 
 /-! ## non-vacuity: the hypotheses of the theorems above are satisfiable by concrete, non-trivial
 states (a queue that hands out a recorded chunk / blocks on a missing one; a pool with a listed
@@ -642,4 +763,21 @@ def exScript : Script :=
     gap := fun _ => []
     tick := 0 }
 example : (syncAny 10 Pool.best exEnv 50 10 none exSy exScript).1 = .ok exSnap ⟨2, 1⟩ ⟨2⟩   := by rfl
+
+def exLc (k : Nat) : ProvRes LightBlock :=
+  if 1 ≤ k ∧ k ≤ 9 then .ok { height := k, hash := [UInt8.ofNat k], appHash := [UInt8.ofNat (k + 100)], appVersion := 0
+                              vals := [UInt8.ofNat (k / 3 + 1)], lastResults := [], consHashed := (100, -1) }
+  else .err
+def exParams : Params := { maxBytes := 100, maxGas := -1, timeIota := 1000, evAgeBlocks := 5, evAgeDur := 1
+                           evMaxBytes := 10, pubKeyTypes := ["ed25519"], appVersion := 0 }
+def exRpc (k : Nat) : ProvRes ParamsResp := .ok ⟨k, exParams⟩
+
+/-- non-vacuity of `Restored` (snapshot height 2 on a 9-block chain with validator changes) -/
+example : ∃ st c, Restored exLc 104857600 exRpc 1 2 st c ∧ st.validators ≠ st.lastValidators := by
+  refine ⟨_, _, ⟨?_, rfl, rfl⟩, by decide⟩
+  intro k b hk
+  unfold exLc at hk
+  split at hk
+  · injection hk with hk; subst hk; rfl
+  · cases hk
 end Tmv.Props.C14
